@@ -18,6 +18,7 @@ import JanetModel.Marsh.AbstractLemmas
 import JanetModel.Asm.InstrLemmas
 import JanetModel.Asm.DefLemmas
 import JanetModel.Marsh.CodeData
+import JanetModel.Marsh.PresentLemmas
 
 namespace JanetModel.Props.C09
 open JanetModel.Marsh JanetModel.Gen.Marsh
@@ -492,6 +493,48 @@ example : asmSlotcount { exVariadic with vararg := false, arity := 0, minArity :
 example : asmSlotcountX [5] exVariadic = 6 ∧ asmSlotcountX [1] exVariadic = 2 := by decide
 end AsmDefExamples
 
+
+/-! ### every value graph has a presentation in reference-number order, and only one  (Marsh/Present.lean)
+
+`roundtrip_graph` is about heaps listed in the order marsh.c numbers them.  `presentOne` is `marshal_one` on a heap in
+*arbitrary* (address) order with the `st->seen` table explicit (newest binding wins, as `janet_table_put`); the description in
+reference-number order — what `graph.janet: describe` computes — is a by-product of the same traversal. -/
+
+/-- **Existence**: whenever the seen-table marshaller writes bytes for `x` in a heap of any order (any seen table with
+numbers below `nextid`, any depth budget), the description it computes is accepted by `marshalOne` at that counter, wherever
+the new objects sit in the heap, and `marshalOne` writes the same bytes and hands out the same numbers. -/
+theorem presentation_exists (G : List Obj) (fuel : Nat) (s : Seen) (n : Nat) (x : Val) (bs : List Nat) (x' : Val)
+    (objs : List Obj) (s' : Seen) (h : presentOne fuel G s n x = some (bs, x', objs, s')) (hs : SeenBelow s n) :
+    SeenBelow s' (n + objs.length) ∧
+    ∀ P Q : List Obj, P.length = n → marshalOne fuel (P ++ objs ++ Q) n x' = some (bs, n + objs.length) :=
+  presentOne_sound G fuel s n x _ h hs
+
+/-- entry point (`janet_marshal` with a fresh state): bytes of the graph = bytes of its presentation, no garbage in it -/
+theorem presentation_exists_top (G : List Obj) (x : Val) (bs : List Nat) (x' : Val) (H : List Obj)
+    (h : present G x = some (bs, x', H)) : marshalOne topFuel H 0 x' = some (bs, H.length) :=
+  present_sound G x bs x' H h
+
+/-- **Uniqueness**: two descriptions in reference-number order that marshal to the same bytes are equal — so a value graph
+has exactly one such presentation (graph isomorphism is equality of presentations), and `unmarshal` returns it. -/
+theorem presentation_unique (H1 H2 : List Obj) (x1 x2 : Val) (bs : List Nat) (hw1 : HeapWF H1) (hw2 : HeapWF H2)
+    (hx1 : ValWF x1) (hx2 : ValWF x2) (h1 : marshalOne topFuel H1 0 x1 = some (bs, H1.length))
+    (h2 : marshalOne topFuel H2 0 x2 = some (bs, H2.length)) : x1 = x2 ∧ H1 = H2 := by
+  have r1 := (roundtrip_graph_top H1 hw1 x1 hx1 bs h1).2
+  have r2 := (roundtrip_graph_top H2 hw2 x2 hx2 bs h2).2
+  rw [r1] at r2
+  simp only [Option.some.injEq, Prod.mk.injEq] at r2
+  exact ⟨r2.1, r2.2.1⟩
+
+/-- the presentation of a graph round-trips: `unmarshal (marshal g)` is the presentation of `g` -/
+theorem presentation_roundtrip (G : List Obj) (x : Val) (bs : List Nat) (x' : Val) (H : List Obj)
+    (h : present G x = some (bs, x', H)) (hw : HeapWF H) (hx : ValWF x') : unmarshal bs = some (x', H, bs.length) :=
+  (roundtrip_graph_top H hw x' hx bs (present_sound G x bs x' H h)).2
+
+/-- non-vacuity: the cyclic example heap listed backwards (the bracket tuple at address 0, the array that contains itself and
+the tuple twice at address 1) is presented as `exHeap`, with the bytes janet writes -/
+example : present [.tuple 1 [.int 300, .ref 1], .array false [.int 1, .ref 1, .ref 0, .ref 0]] (.ref 1)
+    = some ([209, 4, 1, 218, 0, 210, 2, 1, 129, 44, 218, 0, 218, 1], .ref 0, exHeap) := by
+  decide +kernel
 
 /-- **The code-object model extends the data model**: on a heap without functions, fibers or abstracts, `marshalC` of
 Code.lean computes exactly what `marshalOne` of Graph.lean computes (bytes and reference counter), at every depth budget -
